@@ -16,6 +16,8 @@ Python semantics assumed (stated in every evidence file):
 """
 from __future__ import annotations
 
+from ._safe import isinstance
+
 import fractions
 from typing import Any
 
@@ -48,6 +50,7 @@ class SV:
     """Base of all symbolic proxies."""
     term: Any
     __slots__ = ('term',)
+    _pyvc_proxy = True
 
     def __hash__(self):
         raise Unsupported(f'hash() of a symbolic {type(self).__name__} (used as dict key / set member)')
@@ -1028,6 +1031,122 @@ def draw_enum(name, members):
     """Eager exhaustive case split over a finite set of concrete alternatives."""
     members = list(members)
     return members[E().nondet(len(members), name)]
+
+
+class SFin(SV):
+    """
+    A value from a finite set of concrete alternatives (enum members, None, True/False, constants),
+    kept symbolic as an index: equality and identity tests become z3 formulas; any other use
+    (attribute access, hashing, arithmetic) case-splits on the spot.  In concrete mode the drawn
+    member itself is used.
+    """
+    __slots__ = ('_name', '_members', '_chosen')
+
+    def __init__(self, name, members, term):
+        self._name = name
+        self._members = list(members)
+        self.term = term
+        self._chosen = _UNRESOLVED
+
+    def _resolve(self):
+        if self._chosen is _UNRESOLVED:
+            eng = E()
+            for i, m in enumerate(self._members[:-1]):
+                if eng.branch(self.term == i):
+                    self._chosen = m
+                    break
+            else:
+                self._chosen = self._members[-1]
+        return self._chosen
+
+    def _where(self, pred):
+        hits = [self.term == i for i, m in enumerate(self._members) if pred(m)]
+        if not hits:
+            return False
+        if len(hits) == len(self._members):
+            return True
+        return SBool(z3.Or(*hits))
+
+    def is_(self, other):
+        if isinstance(other, SFin):
+            pairs = [z3.And(self.term == i, other.term == j)
+                     for i, a in enumerate(self._members) for j, b in enumerate(other._members) if a is b]
+            return SBool(z3.Or(*pairs)) if pairs else False
+        return self._where(lambda m: m is other)
+
+    def __eq__(self, other):
+        if self._chosen is not _UNRESOLVED:
+            return self._chosen == (other._resolve() if isinstance(other, SFin) else other)
+        if isinstance(other, SFin):
+            pairs = [z3.And(self.term == i, other.term == j)
+                     for i, a in enumerate(self._members) for j, b in enumerate(other._members) if a == b]
+            return SBool(z3.Or(*pairs)) if pairs else False
+        if isinstance(other, SV):
+            return self._resolve() == other
+        return self._where(lambda m: m == other)
+
+    def __ne__(self, other):
+        r = self.__eq__(other)
+        return (not r) if isinstance(r, bool) else ~r
+
+    def truth(self):
+        r = self._where(lambda m: bool(m))
+        return SBool(z3.BoolVal(r)) if isinstance(r, bool) else r
+
+    def __bool__(self):
+        if self._chosen is not _UNRESOLVED:
+            return bool(self._chosen)
+        r = self._where(lambda m: bool(m))
+        return r if isinstance(r, bool) else bool(r)
+
+    def __hash__(self): return hash(self._resolve())
+    def __getattr__(self, name):
+        if name.startswith('__') and name.endswith('__'):
+            raise AttributeError(name)
+        return getattr(self._resolve(), name)
+    def __repr__(self): return f'<fin {self._name}>' if self._chosen is _UNRESOLVED else repr(self._chosen)
+    def __format__(self, spec): return repr(self)
+    def __str__(self): return str(self._resolve())
+    def __call__(self, *a, **kw): return self._resolve()(*a, **kw)
+    def __lt__(self, o): return self._resolve() < o
+    def __le__(self, o): return self._resolve() <= o
+    def __gt__(self, o): return self._resolve() > o
+    def __ge__(self, o): return self._resolve() >= o
+    def __add__(self, o): return self._resolve() + o
+    def __radd__(self, o): return o + self._resolve()
+    def __sub__(self, o): return self._resolve() - o
+    def __rsub__(self, o): return o - self._resolve()
+    def __iter__(self): return iter(self._resolve())
+    def __contains__(self, x): return x in self._resolve()
+
+    @property
+    def __class__(self):
+        return type(self._resolve())
+
+
+class _Unresolved:
+    pass
+
+
+_UNRESOLVED = _Unresolved()
+LazyEnum = SFin
+
+
+def draw_fin(name, members):
+    members = list(members)
+    eng = E()
+    v = eng.draw(name, z3.IntSort())
+    if not z3.is_expr(v):
+        return members[v] if 0 <= v < len(members) else members[0]
+    eng.assume(z3.And(v >= 0, v < len(members)), f'{name} in range')
+    return SFin(name, members, v)
+
+
+draw_lazy = draw_fin
+
+
+def resolve(x):
+    return x._resolve() if isinstance(x, SFin) else x
 
 
 def vc_len(x):
